@@ -1206,6 +1206,11 @@ def interference(concepts, ctx, lat, rng, steps=20):
                 it = iter(lat)
                 next(it, None)
                 list(lat)
+                # the experimental traversal, run to its normal end, right before ordinary ones
+                ms = rng.sample(members, min(len(members), rng.randint(1, 3)))
+                list(lat.upset_generalization(ms))
+                c = rng.choice(members)
+                list(c.downset()), list(c.upset()), list(lat.upset_union(ms)), list(lat.downset_union(ms))
             elif k == 23:
                 concepts.algorithms.get_concepts(ctx)
                 next(concepts.algorithms.fcbo_dual(ctx), None)
@@ -1218,3 +1223,89 @@ def interference(concepts, ctx, lat, rng, steps=20):
         except Exception:
             COL.counters['interference_calls_raised'] += 1
     COL.counters['interference_calls'] += steps
+    if members and len(members) <= 80:
+        sibling_workload(concepts, ctx, lat, rng)
+
+
+def sibling_lattices(concepts, ctx, lat, rng, k=2):
+    """Other Lattice objects over the same table while ``ctx.lattice`` stays what it is: a shallow copy, a
+    second ``Lattice(context)``, the lattice pickled / deep-copied on its own (it brings a context of its
+    own along).  Their members are concepts of *that* lattice: whatever is asked of them is answered
+    within it.  Returns [(how, lattice)], each tied to its context."""
+    import copy
+    import pickle
+    makers = [('copy.copy', lambda: copy.copy(lat), True),
+              ('Lattice(context)', lambda: concepts.lattices.Lattice(ctx), True),
+              ('pickled-alone', lambda: pickle.loads(pickle.dumps(lat, protocol=rng.choice([2, 4, 5]))), False),
+              ('deepcopied-alone', lambda: copy.deepcopy(lat), False)]
+    out = []
+    for how, make, same_ctx in rng.sample(makers, k):
+        try:
+            l2 = make()
+            if same_ctx:
+                tie(l2, ctx)
+            else:
+                c2 = getattr(l2, '_context', None)
+                if c2 is None:
+                    COL.counters['sibling_lattice_without_reachable_context'] += 1
+                    continue
+                tie(l2, c2)
+                KEEP.append(c2)
+        except (core.CaseTimeout, core.CaseTooLarge):
+            raise
+        except Exception:
+            COL.counters['sibling_lattice_not_made'] += 1
+            continue
+        KEEP.append(l2)
+        COL.counters['sibling_lattices:' + how] += 1
+        out.append((how, l2))
+    return out
+
+
+def exercise_lattice(lat, rng, pairs=60):
+    """Member-level questions asked of ``lat`` (judged by whatever monitors are attached).  Never raises."""
+    def attempt(fn):
+        try:
+            return fn()
+        except (core.CaseTimeout, core.CaseTooLarge):
+            raise
+        except Exception:
+            COL.counters['exercise_calls_raised'] += 1
+            return RAISED
+    members = attempt(lambda: list(lat))
+    if members is RAISED or not members:
+        return
+    n = len(members)
+    attempt(lambda: (len(lat), lat.infimum, lat.supremum, lat.atoms, lat[0], lat[-1]))
+    for _ in range(pairs):
+        a, b = members[rng.randrange(n)], members[rng.randrange(n)]
+        attempt(lambda: (a | b, a & b, a.join(b), b.meet(a)))
+        attempt(lambda: (a <= b, a < b, a >= b, a > b, a.incompatible_with(b), a.complement_of(b),
+                         a.subcontrary_with(b), a.orthogonal_to(b)))
+    for c in rng.sample(members, min(n, 25)):
+        attempt(c.minimal)
+        if len(c.intent) <= 8:
+            attempt(lambda: list(c.attributes()))
+        attempt(lambda: (lat[c.extent] if c.extent else None, lat(c.intent), str(c), c.atoms, c.objects, c.properties))
+        attempt(lambda: (list(c.upset()), list(c.downset())))
+    for _ in range(8):
+        ms = [members[rng.randrange(n)] for _ in range(rng.randint(0, 4))]
+        attempt(lambda: (lat.join(ms), lat.meet(ms), list(lat.upset_union(ms)), list(lat.downset_union(ms))))
+    if n <= 60:
+        attempt(lat.graphviz)
+        attempt(lambda: str(lat))
+
+
+def sibling_workload(concepts, ctx, lat, rng):
+    for how, l2 in sibling_lattices(concepts, ctx, lat, rng):
+        exercise_lattice(l2, rng)
+        # ... and the lattice the context holds is asked again afterwards
+        COL.counters['sibling_lattices_exercised'] += 1
+    try:
+        ms = list(lat)
+        a, b = rng.choice(ms), rng.choice(ms)
+        a | b, a & b, lat.join([a, b]), lat.meet([a, b]), list(a.upset()), a.minimal()
+    except (core.CaseTimeout, core.CaseTooLarge):
+        raise
+    except Exception:
+        COL.counters['interference_calls_raised'] += 1
